@@ -214,6 +214,30 @@ def corpus(features=()):
         margs = args.replace("world, e, ", "world, e, ") if True else args
         bad = odd_prelude + "fn main() {\n    let mut world = EcsWorld::new();\n    let e = world.create::<Arch1>((Vec3(1), Position2D(2), HTTPServer(3)));\n    %s!(%s|a: &mut Vec3, b: &mut Vec3| { a.0 += b.0;%s });\n}\n" % (mac, margs, ret)
         out.append(dict(name="unusual_names__%s" % mac, bad=bad, good=odd_prelude + odd_use, family="borrow"))
+    # several worlds in one crate that share their NAME (both left at the default `EcsWorld`), in different modules - the natural
+    # way to write a component that is itself a world; everything the world macro exports must be keyed by more than the name.
+    # The twin nests queries on the two worlds, clones and destroys; the ill-formed program asks the inner world for a
+    # component it does not have.
+    two_prelude = ("#![allow(unused)]\n#![forbid(unsafe_code)]\n"
+                   "pub mod inner {\n    use gecs::prelude::*;\n    #[derive(Clone)] pub struct Cell(pub u32);\n    #[derive(Clone)] pub struct Tag;\n"
+                   "    ecs_world! {\n        ecs_archetype!(ArchCell, Cell);\n        ecs_archetype!(ArchTagged, Cell, Tag);\n    }\n}\n"
+                   "pub mod outer {\n    use gecs::prelude::*;\n    #[derive(Clone)] pub struct Grid(pub super::inner::EcsWorld);\n    #[derive(Clone)] pub struct Name(pub u32);\n"
+                   "    ecs_world! {\n        ecs_archetype!(ArchRegion, Grid, Name);\n        ecs_archetype!(ArchPlain, Name);\n    }\n"
+                   "    pub fn cells(world: &mut EcsWorld, e: Entity<ArchRegion>) -> usize { ecs_find!(world, e, |grid: &Grid| grid.0.arch_cell.len() + grid.0.arch_tagged.len()).unwrap() }\n}\n"
+                   "use gecs::prelude::*;\n")
+    two_body = ("use inner::{ArchCell, ArchTagged, Cell, Tag};\nuse outer::{ArchPlain, ArchRegion, Grid, Name};\n"
+                "fn main() {\n    let mut o = outer::EcsWorld::new();\n    let mut g = inner::EcsWorld::new();\n"
+                "    g.create::<ArchCell>((Cell(1),));\n    g.create::<ArchTagged>((Cell(2), Tag));\n"
+                "    let r = o.create::<ArchRegion>((Grid(g), Name(7)));\n    o.create::<ArchPlain>((Name(8),));\n"
+                "    let mut sum = 0u32;\n"
+                "    outer::ecs_iter!(o, |grid: &mut Grid, n: &Name| {\n        let w = &mut grid.0;\n        inner::ecs_iter!(w, |c: &mut Cell| { c.0 += 10; sum += c.0; });\n        sum += n.0;\n    });\n"
+                "    let c = o.clone();\n"
+                "    let cells = outer::cells(&mut o, r);\n"
+                "    let back = o.destroy(r).unwrap();\n"
+                "    assert!(sum == 11 + 12 + 7 + 8 && cells == 2 && back.grid.0.arch_cell.len() == 1 && c.arch_region.len() == 1 && o.arch_region.len() == 0);\n%s}\n")
+    out.append(dict(name="two_worlds_same_name__nested", family="any",
+                    good=two_prelude + two_body % "",
+                    bad=two_prelude + two_body % "    { let mut g2 = inner::EcsWorld::new(); inner::ecs_iter!(g2, |n: &Name| { let _ = n.0; }); }\n"))
     # a query that names an archetype which is compiled out, in a parameter that is compiled out with it (the natural way to
     # write feature-dependent code); the unsound twin enables the parameter, which then names a type that does not exist
     gone_prelude = PRELUDE.replace("    ecs_archetype!(ArchBar, CompA);", "    ecs_archetype!(ArchBar, CompA);\n    #[cfg(any())]\n    ecs_archetype!(ArchExtra, CompA);")
